@@ -462,20 +462,21 @@ def generate():
     srcs = [U(x) for x in stm]
     need("args = delivery.allargs.args" in srcs and "kwargs = delivery.allargs.kwargs" in srcs, "_doCall: args/kwargs binding")
     idx_check = [i for i, x in enumerate(srcs) if x == "if delivery.methodSchema:\n    delivery.methodSchema.checkAllArgs(args, kwargs, True)"]
-    need(len(idx_check) == 1, "_doCall: `if delivery.methodSchema: delivery.methodSchema.checkAllArgs(args, kwargs, True)` "
-         "is no longer a top-level statement")
     invs = [(i, n) for i, x in enumerate(stm) for n in ast.walk(x) if isinstance(n, ast.Call) and
             (U(n.func) == "obj" or U(n.func).endswith("doRemoteCall"))]
-    need(len(invs) == 2 and all(i > idx_check[0] for i, _ in invs), "_doCall: an invocation is not dominated by checkAllArgs")
-    need(sorted(U(n) for _, n in invs) == ["obj(*args, **kwargs)", "obj.doRemoteCall(delivery.methodname, args, kwargs)"],
-         "_doCall: invocations no longer pass args/kwargs: %s" % [U(n) for _, n in invs])
+    need(len(invs) == 2, "_doCall: expected exactly two invocations of the target")
+    need(sorted(str(U(n)) for _, n in invs) == ["obj(*args, **kwargs)", "obj.doRemoteCall(delivery.methodname, args, kwargs)"],
+         "_doCall: invocations no longer pass args/kwargs: %s" % [str(U(n)) for _, n in invs])
+    checked = len(idx_check) == 1 and all(i > idx_check[0] for i, _ in invs)
     rebind = [n for x in stm[max(srcs.index("args = delivery.allargs.args"), srcs.index("kwargs = delivery.allargs.kwargs")) + 1:]
               for n in ast.walk(x) if isinstance(n, (ast.Assign, ast.AugAssign)) and
               any(isinstance(t, ast.Name) and t.id in ("args", "kwargs") for t in ast.walk(n))
               and any(isinstance(t, ast.Name) and t.id in ("args", "kwargs") and isinstance(t.ctx, ast.Store) for t in ast.walk(n))]
     need(not rebind, "_doCall: args/kwargs are re-bound between the check and the call")
     out.append("Inductive doCall_kind := CheckedBeforeCall | NotChecked.")
-    out.append("Definition doCall_shape : doCall_kind := CheckedBeforeCall.")
+    out.append("Definition doCall_shape : doCall_kind := %s.  (* `if delivery.methodSchema: delivery.methodSchema."
+               "checkAllArgs(args, kwargs, True)` as a top-level statement before both invocations *)"
+               % ("CheckedBeforeCall" if checked else "NotChecked"))
     dn = U(P.find_def(P.load("broker.py"), "Broker.doNextCall"))
     for frag in ("d.addCallback(lambda res: self._doCall(delivery))", "d.addErrback(self.callFailed, delivery.reqID, delivery)"):
         need(frag in dn, "doNextCall no longer contains " + frag)
